@@ -187,7 +187,10 @@ NormLaw ==
   (Before("norm") /\ Depth >= 1 /\ Total(A2) > 0) =>
      LET x == RefNorm(A2) IN
      /\ Total(x) = x.den /\ x.vars = A2.vars /\ NRows(x) = NRows(A2)
-     /\ \A i \in 1..NRows(x) : x.rows[i].vals = A2.rows[i].vals /\ x.rows[i].w * A2.den * Total(A2) = A2.rows[i].w * x.den * A2.den
+     \* proportional: row i has weight (w_i / den) / (Total / den) = w_i / Total - same numerators over the
+     \* denominator Total (stated without any product, so it cannot leave TLC's 32-bit integers)
+     /\ \A i \in 1..NRows(x) : x.rows[i].vals = A2.rows[i].vals /\ x.rows[i].w = A2.rows[i].w
+     /\ x.den = Total(A2)
 \* instance filter / closure: everything on the stack is a well-formed table that is a function,
 \* and mixtures are only requested over equal variable sets
 StackWellFormed ==
